@@ -15,8 +15,8 @@ use crate::Ctx;
 
 const U32MAX: usize = u32::MAX as usize;
 
-fn limits() -> Vec<usize> {
-    let mut v: Vec<usize> = (0..=16).collect();
+fn limits(thorough: bool) -> Vec<usize> {
+    let mut v: Vec<usize> = (0..=(if thorough { 64 } else { 16 })).collect();
     v.extend_from_slice(&[1023, 1024, 1025, 51199, 51200, 51201, U32MAX]);
     v
 }
@@ -324,9 +324,9 @@ pub fn run(ctx: &mut Ctx) {
     let quick = ctx.quick();
     // ---- (a) payload limit boundary
     let mut idx = 0u64;
-    for l in limits() {
+    for l in limits(!quick) {
         for n in lengths_around(l) {
-            for variant in 0..(if quick { 4 } else { 12 }) {
+            for variant in 0..(if quick { 4 } else { 24 }) {
                 idx += 1;
                 if !ctx.mine(idx) {
                     continue;
@@ -404,6 +404,16 @@ pub fn run(ctx: &mut Ctx) {
                 // byte-at-a-time is long; run it for the lengths around the limit and a sample elsewhere
                 if (1022..=1027).contains(&len) || (off + len) % 16 == 0 {
                     judge_line(ctx, kind, len, off, &s, &gen::const_cuts(s.len(), 1));
+                }
+                if !quick {
+                    // more segmentations per (kind, length, offset) in the thorough tier
+                    for sz in [2usize, 3, 7, 512, 1023, 1024] {
+                        judge_line(ctx, kind, len, off, &s, &gen::const_cuts(s.len(), sz));
+                    }
+                    for _ in 0..3 {
+                        let cuts = gen::random_cuts(&mut rng, s.len(), 8);
+                        judge_line(ctx, kind, len, off, &s, &cuts);
+                    }
                 }
                 // cuts around the 1024th byte of the line
                 let at = off + 1024;
